@@ -164,3 +164,4 @@ def count(name, lines, ib, stats, meta):
     base, _, tag = name.partition('~')
     stats['distinct'].add((base, tag))
     if len(stats['samples']) < 4 and 'alloc2' in tag: stats['samples'].append({'scenario': name, 'ops': len(lines), 'final_live': next((b.kv.get('live') for b in reversed(ib) if 'live' in b.kv), None)})
+EXPLORE = dict(ops=('frame',), mtu=False, oracle=False)
